@@ -593,6 +593,19 @@ class Gen(object):
             t = M.Type("struct", name=target.name, dims=[("n", n)])
             t.target = target
             return M.Field(name, start, ("n", n * target.static_size), t), n * target.static_size
+        bit_targets = [b for b in self.bitses if getattr(b, "static_bits", None) in (8, 16, 32) and all(f.cond is None for f in b.fields)]
+        if 0.25 <= k < 0.37 and bit_targets:
+            # arrays of bits types: one- or few-byte aggregate elements, possibly with bits no field covers
+            target = r.choice(bit_targets)
+            nb = target.static_bits // 8
+            n = r.choice([1, 2, 3, 4])
+            t = M.Type("bits", name=target.name, dims=[("n", n)])
+            t.target = target
+            f = M.Field(name, start, ("n", n * nb), t)
+            if nb > 1 and not self.has_default_bo_any():
+                f.byte_order = r.choice(["LittleEndian", "BigEndian"])
+            self.features.add("array-of-bits")
+            return f, n * nb
         ebytes = r.choice([1, 1, 1, 2, 4])
         kind = r.choice(["UInt", "UInt", "Int"])
         if k < 0.6 or not env.ints:
@@ -644,6 +657,17 @@ class Gen(object):
             b = self.gen_bits_type(r.choice([8, 16, 32]))
             m.types.append(b)
             self.bitses.append(b)
+        if r.random() < 0.35:
+            # a one-byte bits type with reserved bits in the middle: as an array element it is a
+            # byte whose value is NOT the whole byte
+            gb = M.Struct("bits", self.tname("Bi"))
+            lo = r.choice([1, 2, 3])
+            gb.fields.append(M.Field(self.name("b"), ("n", 0), ("n", lo), M.Type("UInt", lo)))
+            gb.fields.append(M.Field(self.name("b"), ("n", 7), ("n", 1), M.Type(r.choice(["Flag", "UInt"]), 1)))
+            gb.static_bits = 8
+            m.types.append(gb)
+            self.bitses.append(gb)
+            self.features.add("reserved-bits-type")
         for _ in range(r.choice([1, 2, 2, 3, 4])):
             st = self.gen_struct()
             st.static_size = struct_static_size(st)
